@@ -7,8 +7,10 @@ mod selftest;
 mod spaces;
 
 mod c01;
+mod c02;
 mod c03;
 mod c04;
+mod c06;
 mod c07;
 mod c18;
 mod c11;
@@ -26,8 +28,10 @@ type RecheckFn = fn(&Value) -> Vec<Viol>;
 fn table() -> Vec<(&'static str, RunFn, RecheckFn)> {
     vec![
         ("C01", c01::run as RunFn, c01::recheck as RecheckFn),
+        ("C02", c02::run, c02::recheck),
         ("C03", c03::run, c03::recheck),
         ("C04", c04::run, c04::recheck),
+        ("C06", c06::run, c06::recheck),
         ("C07", c07::run, c07::recheck),
         ("C11", c11::run, c11::recheck),
         ("C18", c18::run, c18::recheck),
